@@ -7,6 +7,7 @@ Theorem C16_clone_effects : forall env,
 Proof. exact clone_effects. Qed.
 
 Theorem C16_compress_effects : forall env,
+  (forall c, z_out env <> Blk c) ->
   let r := compress_cmd_model env in
   s_failed r = false ->
   s_out r = Reg (z_archive env)
